@@ -8,6 +8,15 @@ CHECKS = {
  "C01": dict(level="exploration", design="3/C01", technique="runtime monitoring: recording exec interposer + offline per-call oracle",
    text="Every generated call (config x path/argv/envp shape x outcome, every errno) is executed through the production libsnoopy.so with a recording execv/execve where RTLD_NEXT resolves; the oracle checks exactly-once, pointer identity, deep content hashes before/at/after, ret/errno delivery, no sink activity after the real call, mutex depth 0 and empty thread registry at the real call, and the argv/envp seen by a really exec'd image. Held on the executions observed, not a proof.",
    note="Trusts: LD_PRELOAD symbol order (libvrec.so right after libsnoopy.so), the driver's own hashing, strace-free observation; shapes are sampled, not exhaustive."),
+ "C18": dict(level="exploration", design="3/C18-C19", technique="runtime monitoring of the real snoopyctl against a reference model, exhaustive over small files",
+   text="The snoopyctl built from the working tree is run (enable, enable again, status) on every ld.so.preload content of up to 3 (quick) / 4 (thorough) lines over an 18-kind line alphabet, terminated and unterminated, plus absent/empty and thousands of random files; file bytes, exit status and status output are compared with preload_model. Exhaustive for the enumerated small files, sampled beyond.",
+   note="Trusts the SNOOPY_TEST_* path overrides (the suite's own mechanism) and the model of 'comment line' / 'active entry' in DESIGN A.3; open points of the property accept several outcomes."),
+ "C19": dict(level="exploration", design="3/C18-C19", technique="runtime monitoring of the real snoopyctl against a reference model, exhaustive over small files",
+   text="`snoopyctl disable` and the enable;disable round trip are run on the same exhaustively enumerated and random files; a token- and line-level oracle demands that only the own entry disappears, refusals leave the file untouched and are justified by >=2 active mentions.",
+   note="Same trusted base as C18; what happens to a trailing comment on the entry's own line is left open."),
+ "C20": dict(level="fault_enumeration", design="3/C20", technique="strace fault/kill injection at every syscall boundary + file-content oracle",
+   text="For a set of initial contents (empty, small, unterminated, 5 kB, 70 kB; entry first/middle/last) every syscall position of an enable/disable run is used as a crash point (SIGKILL before syscall k, proven by the trace) and every write-type syscall is failed with ENOSPC/EIO/EDQUOT; afterwards the file must equal the complete old or the complete new content.",
+   note="Crash points are syscall boundaries of the traced runs only (power loss / page-cache effects are not modelled); strace semantics as measured in DESIGN section 1."),
 }
 
 def main():
